@@ -1,7 +1,7 @@
 """Per-property configuration: what is proved, which correspondences run, what is trusted."""
 import os
 import driver
-from driver import corr_run
+from driver import corr_run, ref_run
 
 
 _UPSTREAM = None
@@ -58,13 +58,55 @@ def run_C07(ctx):
              nontrivial=lambda c: c["calls"] >= 2, has_oracle=True)
 
 
+def run_C01(ctx):
+    ref_run(ctx, "diffref", ["diffref", "--n", n_cases(ctx, 700, 60000)],
+            "artela-evm vm vs go-ethereum v1.12.0 core/vm on generated programs (results, post-state root, logs, refund, self-destructs, debug events)",
+            nontrivial=lambda c: c.get("steps", 0) >= 5)
+
+
+def run_C02(ctx):
+    ref_run(ctx, "diffref", ["diffref", "--mode", "gas", "--n", n_cases(ctx, 500, 40000)],
+            "per-step gas/cost stream, frame gas hand-over, refund and leftover gas vs go-ethereum v1.12.0, re-run at gas limits one below / on / one above intermediate gas values",
+            nontrivial=lambda c: c.get("steps", 0) >= 3)
+
+
 HOOK_COMMITS = []
 NOT_YET = {}
 
 COMMON_NOTE = ("Trusted: Coq 8.16.1 kernel; extraction (ExtrOcamlBasic only) + OCaml driver; the Go harness (generators, canonical dumps, "
                "property oracles). Error texts are compared by class (out of gas / execution reverted / other). ")
 
+REF_NOTE = ("Reference: github.com/ethereum/go-ethereum v1.12.0 core/vm, the module /repo itself depends on (offline module cache), run in the same process on an identical pre-state. "
+            "Translator trusted: go/parser + the normalisation rules N1-N5 of harness/internal/gen/digest.go (leading ctx parameter/argument dropped, var x = e as x := e, layout ignored, "
+            "const/var blocks digested whole); reflect/runtime.FuncForPC for table entries. The step from 'structurally identical declarations in identical tables' to 'identical behaviour' is a meta-argument about Go, not a Coq theorem. ")
+
 PROPS = {
+    "C01": {
+        "run": run_C01,
+        "technique": "Coq theorems over regenerated facts (every inherited declaration digest-identical to go-ethereum v1.12.0, instruction tables equal outside 0xe0-0xe7 on all forks and extra-EIP sets) + differential execution against the reference implementation",
+        "level_text": "On every run a translator re-reads /repo and go-ethereum v1.12.0 and regenerates (a) a structural digest of every top-level declaration of vm and core and (b) the 256-entry instruction "
+                      "tables the live interpreters select for Frontier..Shanghai and for each activatable EIP; Coq theorems (vm_compute over this finite data, bound = the listed declarations and 256 x forks) state that every "
+                      "declaration is identical to upstream's or is one of the 183 reviewed Artela modifications/additions with its reviewed digest, that every table entry outside the journal bytes equals upstream's, and that "
+                      "the precompile sets are upstream's plus 0x64-0x66 from Berlin. The frame logic Artela changed (Call/create) is modelled in Coq and proved to project onto upstream's frame logic when nothing is bound (Exec). "
+                      "Behavioural equality is validated, and a failing input searched, by running generated programs (valid grammar-based + malformed) through all six entry points on both implementations.",
+        "level_note": COMMON_NOTE + REF_NOTE,
+        "rule": "programs for 4 mutually calling contracts from a snippet grammar (arithmetic, memory, storage, logs, jumps, loops, all call kinds to contracts/EOA/empty/precompiles 1-9 with varied gas and value, CREATE/CREATE2, "
+                "returndata, SELFDESTRUCT, early exits) plus a malformed stream (random bytes, truncated PUSH, bad jumps, stack under/overflow, mutated programs) x 12 forks x extra-EIP sets x 6 entry points x join points on/off; "
+                "each followed by re-runs at gas limits around intermediate gas values; non-trivial = at least 5 executed steps; distinct = distinct (fork, entry, codes, input, gas)",
+        "modelled": ["vm/evm.go Call/create frame logic (Exec model)"],
+        "assumptions": ["programs that execute a journal opcode or touch addresses 0x64-0x66 are outside 'standard programs' and are skipped (counted)"],
+    },
+    "C02": {
+        "run": run_C02,
+        "technique": "Coq theorems over regenerated facts (gas functions, constants and table entries identical to go-ethereum v1.12.0) + differential per-step gas comparison at boundary gas limits",
+        "level_text": "Same regenerated-facts theorems as C01 (every gas function, constant-gas entry and dynamic-gas symbol identical to upstream or reviewed). The differential run compares, for every executed step, "
+                      "(pc, opcode, gas before, cost, depth), the gas handed to and back by every frame (enter/exit events), the refund counter and the leftover gas, and re-runs each program with gas limits one unit short of, "
+                      "exactly on and one unit above randomly chosen intermediate gas values, so that out-of-gas must strike at the same instruction.",
+        "level_note": COMMON_NOTE + REF_NOTE,
+        "rule": "as C01; every case is followed by 2 (quick) / 6 (thorough) x 3 boundary gas limits; warm/cold access-list states arise from the calls inside the programs and StateDB.Prepare; non-trivial = at least 3 executed steps",
+        "modelled": [],
+        "assumptions": ["as C01"],
+    },
     "C09": {
         "run": run_C09,
         "technique": "Coq theorems (packed-field extraction and Solidity string round trip for all words/offsets/widths/contents/slots, any hash) + differential correspondence on journal programs + independent Solidity-layout oracle",
